@@ -41,6 +41,10 @@ def gen(tier, seed):
               ".orig xF000\n.blkw x0FFF\nhalt\nhalt\n", ".orig xFE00\nhalt\n", ".orig x0000\n.blkw xFFFD\nhalt\n",
               ".orig xFFF0\n.stringz \"0123456789abcdefghij\"\n"):
         cases.append(("image-at-end-of-memory", t))
+    # sources WITHOUT any statement: the complete object file is the origin word alone, and it has to be written
+    for t in ("", "\n", "; nothing but a comment\n", ".orig x4000\n", ".end\n", ".orig x4000\n.end\nadd r0 r0 #1\n", "   \n\t\n", ".orig xFFFF\n",
+              ".break\n", "lonely\n.break\n"):
+        cases.append(("no-statements", t))
     cases.append(("label-error", "halt\nbr nowhere\n")); cases.append(("ok", ".orig x4000\nlea r0 s\nputs\nhalt\ns .stringz \"x\"\n"))
     return cases
 
@@ -52,7 +56,8 @@ def correspondence(ctx, violations, known_hits):
     model = ctx.run_model([C06.obj_case(0, t) for _, t in cases], tag="obj")
     # the full device and the missing directory are reached through symbolic links INSIDE the scratch directory (never the
     # real /dev/full: a compile that mistreats its destination must not be able to damage the machine)
-    dests = ["absent", "existing", "existing-empty", "existing-prefix", "existing-extended", "devfull", "missingdir", "isdir", "dangling-link"]
+    dests = ["absent", "existing", "existing-empty", "existing-prefix", "existing-extended", "devfull", "missingdir", "isdir", "dangling-link",
+             "absent-nonutf8-name", "existing-nonutf8-name"]
 
     def pre_contents(i, dest_kind):
         """What the destination holds before `compile` for the `existing*` kinds: unrelated bytes, nothing, a proper PREFIX
@@ -60,7 +65,7 @@ def correspondence(ctx, violations, known_hits):
         mo = [int(x, 16) for x in model[i][0].split()]
         exp = bytes(mo[2:2 + mo[1]]) if mo[0] == 0 else bytes.fromhex("3000f025")
         return {"existing": OLD, "existing-empty": b"", "existing-prefix": exp[:max(2, len(exp) - 2)],
-                "existing-extended": exp + bytes.fromhex("1021f026f025")}[dest_kind]
+                "existing-extended": exp + bytes.fromhex("1021f026f025"), "existing-nonutf8-name": OLD}[dest_kind]
 
     def job(i, dest_kind):
         tag, text = cases[i]
@@ -69,6 +74,11 @@ def correspondence(ctx, violations, known_hits):
             open(os.path.join(sub, "p.asm"), "w").write(text)
             if dest_kind == "absent":
                 dest = os.path.join(sub, "out.lc3")
+            elif dest_kind.endswith("nonutf8-name"):
+                # a file name that is not valid UTF-8 (bytes xFF xFE): what is printed about it must not decide the outcome
+                dest = os.path.join(sub, "o\udcff\udcfe.lc3")
+                if dest_kind.startswith("existing"):
+                    open(dest, "wb").write(pre_contents(i, dest_kind))
             elif dest_kind.startswith("existing"):
                 dest = os.path.join(sub, "out.lc3"); open(dest, "wb").write(pre_contents(i, dest_kind))
             elif dest_kind == "devfull":
@@ -80,7 +90,7 @@ def correspondence(ctx, violations, known_hits):
             else:
                 dest = os.path.join(sub, "adir"); os.makedirs(dest, exist_ok=True)
             rc, so, se = clicommon.run_cli(exe, ["compile", "p.asm", dest], sub)
-            if dest_kind == "absent" or dest_kind.startswith("existing"):
+            if dest_kind.startswith("absent") or dest_kind.startswith("existing"):
                 after = open(dest, "rb").read() if os.path.exists(dest) else None
             elif dest_kind == "missingdir":
                 after = "exists" if os.path.exists(dest) else None
@@ -96,7 +106,7 @@ def correspondence(ctx, violations, known_hits):
     jobs, meta = [], []
     for i in range(len(cases)):
         for dk in dests:
-            if dk in ("devfull", "missingdir", "isdir", "dangling-link", "existing-empty", "existing-prefix", "existing-extended") and cases[i][0].startswith("emit-error") and i % 7 != 0:
+            if dk in ("devfull", "missingdir", "isdir", "dangling-link", "existing-empty", "existing-prefix", "existing-extended", "absent-nonutf8-name", "existing-nonutf8-name") and cases[i][0].startswith("emit-error") and i % 7 != 0:
                 continue      # destination faults are orthogonal to the failing statement position: sample them
             jobs.append(job(i, dk)); meta.append((i, dk))
     res = clicommon.parallel(jobs)
@@ -106,8 +116,8 @@ def correspondence(ctx, violations, known_hits):
         mo = [int(x, 16) for x in model[i][0].split()]
         exp_bytes = bytes(mo[2:2 + mo[1]]) if mo[0] == 0 else None
         ev += 1
-        before = pre_contents(i, dk) if dk.startswith("existing") else {"absent": None, "devfull": "chardev", "missingdir": None, "isdir": "dir", "dangling-link": "link"}[dk]
-        if dk == "absent" or dk.startswith("existing"):
+        before = pre_contents(i, dk) if dk.startswith("existing") else {"absent": None, "absent-nonutf8-name": None, "devfull": "chardev", "missingdir": None, "isdir": "dir", "dangling-link": "link"}[dk]
+        if dk.startswith("absent") or dk.startswith("existing"):
             good = (rc == 0 and mo[0] == 0 and after == exp_bytes) or (rc != 0 and mo[0] != 0 and after == before)
         else:
             good = (rc != 0 and after == before)          # the destination cannot be written: must fail and change nothing
@@ -129,7 +139,7 @@ def correspondence(ctx, violations, known_hits):
         "evaluations": ev, "distinct_nontrivial": len(sigs),
         "rule": "fault enumeration at the CLI: an out-of-range label reference injected at EVERY statement position 0..n of programs "
                 "with n up to 40 (several PC-relative instructions), plus parse/lex/label errors and valid programs, x destination "
-                "absent / pre-existing with unrelated contents, empty, a proper prefix of the new object file, the new object file followed by stale words / a link to /dev/full / missing directory / a directory in place of the file / a dangling link; the scratch directory must hold nothing new; "
+                "absent / pre-existing with unrelated contents, empty, a proper prefix of the new object file, the new object file followed by stale words / a link to /dev/full / missing directory / a directory in place of the file / a dangling link / a file name that is not valid UTF-8 (absent, pre-existing); sources without any statement (empty, comments, `.orig` alone, `.end` first); the scratch directory must hold nothing new; "
                 "observed: exit status and the bytes at the destination before and after; distinct = distinct (class, destination, exit==0)",
         "exhaustive": True, "exhaustive_over": "failing statement position 0..n for each listed n",
         "histogram": hist, "samples": samples, "mismatches": nv,
